@@ -879,6 +879,78 @@ def elementwise(fi: "FuncInfo") -> "FuncInfo":
     return dataclasses.replace(fi, node=node)
 
 
+def inline_views(fi: "FuncInfo") -> "FuncInfo":
+    """A copy of the function in which a local that names a row / column
+    view of a parameter (`col = y[:, K]`, assigned once, neither re-bound
+    nor written through, the parameter not re-bound) is replaced by the
+    view: `col[i]` -> `y[i, K]`, bare `col` -> `y[:, K]`."""
+    import copy
+    import dataclasses
+    node = copy.deepcopy(fi.node)
+    stores: dict[str, int] = {}
+    through: set[str] = set()
+    for x in ast.walk(node):
+        if isinstance(x, ast.Name) and isinstance(
+                x.ctx, (ast.Store, ast.Del)):
+            stores[x.id] = stores.get(x.id, 0) + 1
+        elif isinstance(x, (ast.Subscript, ast.Attribute)) and isinstance(
+                x.ctx, (ast.Store, ast.Del)):
+            b: ast.AST = x
+            while isinstance(b, (ast.Subscript, ast.Attribute)):
+                b = b.value
+            if isinstance(b, ast.Name):
+                through.add(b.id)
+    params = set(fi.params)
+    views: dict[str, tuple[ast.Subscript, int]] = {}
+    drop: list[ast.stmt] = []
+    for st in node.body:
+        tg = st.targets[0] if isinstance(st, ast.Assign) and len(
+            st.targets) == 1 else (st.target if isinstance(
+                st, ast.AnnAssign) and st.value is not None else None)
+        val = getattr(st, "value", None)
+        if not (isinstance(tg, ast.Name) and isinstance(
+                val, ast.Subscript) and isinstance(val.value, ast.Name)
+                and val.value.id in params
+                and isinstance(val.slice, ast.Tuple)):
+            continue
+        base = val.value.id
+        if stores.get(tg.id, 0) != 1 or tg.id in through or \
+                stores.get(base, 0) or base in through:
+            continue
+        full = [k for k, e in enumerate(val.slice.elts) if isinstance(
+            e, ast.Slice) and e.lower is None and e.upper is None
+            and e.step is None]
+        rest_ok = all(isinstance(e, (ast.Name, ast.Constant, ast.Attribute))
+                      for k, e in enumerate(val.slice.elts) if k not in full)
+        if len(full) != 1 or not rest_ok or any(
+                isinstance(e, ast.Name) and stores.get(e.id, 0)
+                for e in val.slice.elts):
+            continue
+        views[tg.id] = (val, full[0])
+        drop.append(st)
+    if not views:
+        return fi
+
+    class V(ast.NodeTransformer):
+        def visit_Subscript(self, n: ast.Subscript) -> ast.AST:
+            if isinstance(n.value, ast.Name) and n.value.id in views and \
+                    isinstance(n.ctx, ast.Load) and not isinstance(
+                    n.slice, (ast.Tuple, ast.Slice)):
+                val, k = views[n.value.id]
+                new = copy.deepcopy(val)
+                new.slice.elts[k] = self.visit(n.slice)  # type: ignore
+                return ast.copy_location(new, n)
+            return self.generic_visit(n)
+
+        def visit_Name(self, n: ast.Name) -> ast.AST:
+            if n.id in views and isinstance(n.ctx, ast.Load):
+                return ast.copy_location(copy.deepcopy(views[n.id][0]), n)
+            return n
+    node.body = [st for st in node.body if st not in drop]
+    node = ast.fix_missing_locations(V().visit(node))
+    return dataclasses.replace(fi, node=node)
+
+
 def fold_consts(repo: "Repo", module: "Module", e: ast.AST) -> ast.AST:
     """A copy of the expression in which every name / attribute that
     resolves to a module-level numeric or string constant is replaced by
@@ -1054,6 +1126,95 @@ class _Continue2Else(ast.NodeTransformer):
         return n
 
 
+class _WhileTrue(ast.NodeTransformer):
+    """`while True: if c: break; B` -> `while not c: B` (B without further
+    break statements of this loop is not required: they keep their
+    meaning)."""
+
+    def visit_While(self, n: ast.While) -> ast.AST:
+        self.generic_visit(n)
+        if isinstance(n.test, ast.Constant) and n.test.value is True and \
+                len(n.body) > 1 and isinstance(n.body[0], ast.If) and \
+                not n.body[0].orelse and len(n.body[0].body) == 1 and \
+                isinstance(n.body[0].body[0], ast.Break) and not n.orelse:
+            c = n.body[0].test
+            if isinstance(c, ast.UnaryOp) and isinstance(c.op, ast.Not):
+                test: ast.expr = c.operand
+            else:
+                test = ast.UnaryOp(op=ast.Not(), operand=c)
+            new = ast.While(test=test, body=n.body[1:], orelse=[])
+            ast.copy_location(new, n)
+            for x in ast.walk(new):
+                if not hasattr(x, "lineno"):
+                    ast.copy_location(x, n)
+            return new
+        return n
+
+
+class _EnumView(ast.NodeTransformer):
+    """`for i, v in enumerate(a[:, K]): B` -> `for i in range(len(a)):
+    B[v := a[i, K]]` (i, v and a not stored in B)."""
+
+    def visit_For(self, n: ast.For) -> ast.AST:
+        import copy
+        self.generic_visit(n)
+        it, tg = n.iter, n.target
+        if not (isinstance(it, ast.Call) and isinstance(it.func, ast.Name)
+                and it.func.id == "enumerate" and len(it.args) == 1
+                and not it.keywords and isinstance(tg, ast.Tuple)
+                and len(tg.elts) == 2 and all(isinstance(
+                    e, ast.Name) for e in tg.elts) and not n.orelse):
+            return n
+        view = it.args[0]
+        if not (isinstance(view, ast.Subscript) and isinstance(
+                view.value, ast.Name) and isinstance(view.slice, ast.Tuple)
+                and len(view.slice.elts) == 2):
+            return n
+        e0, e1 = view.slice.elts
+        if not (isinstance(e0, ast.Slice) and e0.lower is None
+                and e0.upper is None and e0.step is None and isinstance(
+                    e1, (ast.Name, ast.Constant, ast.Attribute))):
+            return n
+        iv, vv, base = tg.elts[0].id, tg.elts[1].id, view.value.id
+        for x in ast.walk(ast.Module(body=n.body, type_ignores=[])):
+            if isinstance(x, ast.Name) and isinstance(
+                    x.ctx, (ast.Store, ast.Del)) and x.id in (iv, vv, base):
+                return n
+            if isinstance(x, ast.Subscript) and isinstance(
+                    x.ctx, (ast.Store, ast.Del)) and isinstance(
+                    x.value, ast.Name) and x.value.id in (vv, base):
+                return n
+
+        class S(ast.NodeTransformer):
+            def visit_Name(self, m: ast.Name) -> ast.AST:
+                if m.id == vv and isinstance(m.ctx, ast.Load):
+                    return ast.copy_location(ast.Subscript(
+                        value=ast.Name(id=base, ctx=ast.Load()),
+                        slice=ast.Tuple(elts=[
+                            ast.Name(id=iv, ctx=ast.Load()),
+                            copy.deepcopy(e1)], ctx=ast.Load()),
+                        ctx=ast.Load()), m)
+                return m
+        new = ast.For(
+            target=ast.Name(id=iv, ctx=ast.Store()),
+            iter=ast.Call(func=ast.Name(id="range", ctx=ast.Load()), args=[
+                ast.Call(func=ast.Name(id="len", ctx=ast.Load()),
+                         args=[ast.Name(id=base, ctx=ast.Load())],
+                         keywords=[])], keywords=[]),
+            body=[S().visit(b) for b in n.body], orelse=[])
+        return ast.fix_missing_locations(ast.copy_location(new, n))
+
+
+def kernel_normalised(fi: "FuncInfo") -> "FuncInfo":
+    """`inline_views` plus `while True: if c: break` -> `while not c`."""
+    import copy
+    import dataclasses
+    fi = inline_views(fi)
+    node = _WhileTrue().visit(copy.deepcopy(fi.node))
+    node = ast.fix_missing_locations(_EnumView().visit(node))
+    return dataclasses.replace(fi, node=node)
+
+
 def normalised(repo: "Repo", fi: "FuncInfo",
                cls: "ClassInfo | None" = None,
                aliases: bool = False) -> "FuncInfo":
@@ -1070,6 +1231,7 @@ def normalised(repo: "Repo", fi: "FuncInfo",
     node = _UnrollLiteral().visit(node)
     node = _Range2Enum().visit(node)
     node = _Continue2Else().visit(node)
+    node = _WhileTrue().visit(node)
     ast.fix_missing_locations(node)
 
     # ---- keyword -> positional for resolvable library functions
